@@ -95,16 +95,47 @@ fn heikin_valid(ctx: &Ctx, r: &mut Report) {
 		}
 		let cs = gen::candles((k % 6) as usize, ctx.seed ^ k << 5, 500, 10);
 		let Ok(Ok(mut m)) = guard(|| HeikinAshi::new((), &cs[0])) else { continue };
+		let mut ref_open: V = (cs[0].open + cs[0].high + cs[0].low + cs[0].close) * 0.25;
 		for (i, c) in cs.iter().enumerate() {
 			let Ok(o) = guard(|| m.next(c)) else {
 				r.violate("C17|HeikinAshi|panic", "HeikinAshi panicked on a valid candle", || json!({"step": i}));
 				break;
 			};
 			r.eval(1);
-			if !o.validate() {
+			// own validity oracle: Candle::validate() does not look at `open` (known finding of C18)
+			let own_valid = o.low <= o.open.min(o.close) && o.high >= o.open.max(o.close) && o.low <= o.high
+				&& o.open.is_finite() && o.close.is_finite() && o.high.is_finite() && o.low.is_finite()
+				&& (o.volume >= 0.0 || (o.volume.is_nan() && c.volume.is_nan()));
+			if !o.validate() || !own_valid {
 				r.violate("C17|HeikinAshi|invalid-output", "HeikinAshi produced an invalid candle from valid input", || json!({"step": i, "input": cj(c), "output": cj(&o), "class": k % 6, "seed": ctx.seed ^ k << 5}));
 				break;
 			}
+			// recursion: close = ohlc4(input); open = (previous HA open + previous HA close)/2, first open = ohlc4(first input);
+			// high/low = extremes of the input's high/low and the HA open/close; volume is carried over
+			let mag = c.open.abs().max(c.high.abs()).max(c.low.abs()).max(c.close.abs()).max(ref_open.abs());
+			let tol = 8.0 * V::EPSILON * mag + V::MIN_POSITIVE;
+			let want_close = (c.open + c.high + c.low + c.close) * 0.25;
+			let want_high = c.high.max(ref_open).max(want_close);
+			let want_low = c.low.min(ref_open).min(want_close);
+			let bad = if (o.close - want_close).abs() > tol {
+				Some("close")
+			} else if (o.open - ref_open).abs() > tol {
+				Some("open")
+			} else if (o.high - want_high).abs() > tol {
+				Some("high")
+			} else if (o.low - want_low).abs() > tol {
+				Some("low")
+			} else if o.volume.to_bits() != c.volume.to_bits() {
+				Some("volume")
+			} else {
+				None
+			};
+			if let Some(what) = bad {
+				r.violate(&format!("C17|HeikinAshi|recursion|{what}"), "a HeikinAshi output field differs from the open/close recursion", || json!({"step": i, "input": cj(c), "output": cj(&o), "ref_open": ref_open, "want_close": want_close, "want_high": want_high, "want_low": want_low, "class": k % 6, "seed": ctx.seed ^ k << 5}));
+				break;
+			}
+			ref_open = (ref_open + want_close) * 0.5;
+			if o.low < c.low || o.high > c.high { r.count("heikin-ashi:open-outside-input-range", 1); }
 		}
 		r.cell(&format!("heikin-ashi:valid-output:{}", gen::CANDLE_CLASSES[(k % 6) as usize]));
 	}
